@@ -15,6 +15,7 @@ error, and before fix d91e0833 `Open`/`ReadDir` of a deleted entry returned a ha
 listing; the witnesses are kept in corpus/C17/budget-edge.case as strict regression cases.)
 -/
 import Scalibr.Proofs.Symlink
+import Scalibr.Proofs.SymlinkOverlay
 namespace Scalibr.Symlink
 set_option linter.unusedSectionVars false
 
@@ -227,13 +228,16 @@ theorem C17_open_meets_spec (g : Graph α) (D : Nat) (p : α) :
     | none => simp [hgp] at hp
     | some x => rcases hr with hr | hr <;> simp [hr, allowedOpen]
 
-/-- `ReadDir` fails exactly when `Open` fails, with the same class (so a deleted entry has no listing). -/
+/-- `ReadDir` fails exactly when `Open` fails, with the same class (so a deleted entry has no listing).
+DEFINITIONAL (`rfl`): it restates the model's `readDir`; it is listed only so that the reader of
+`C17_open_meets_spec` sees what it implies for `ReadDir`. -/
 theorem C17_readdir_follows_open (g : Graph α) (kids : α → List String) (D : Nat) (p : α) :
     readDir g kids D p =
       (match openNode g D p with
        | .ok n => .ok (kids n) | .notExist => .notExist | .cycle => .cycle | .depth => .depth) := rfl
 
-/-- `Open` then `Stat` on the handle is `Stat` (what `runExtractor` does). -/
+/-- `Open` then `Stat` on the handle is `Stat` (what `runExtractor` does). DEFINITIONAL (unfold + case
+split): it relates two model functions, not the model and the specification. -/
 theorem C17_open_then_stat (g : Graph α) (D : Nat) (p : α) :
     stat g D p =
       (match openNode g D p with
@@ -328,6 +332,43 @@ theorem C17_stored_target (dir linkSegs : List String) (hne : linkSegs ≠ [""])
   · simp only [habs, decide_false, if_false, hiff.1, resolveLex_eq (dir ++ linkSegs) [], List.length_nil,
       List.reverse_nil, cleanAbs]
     split <;> rfl
+
+/-- The two Lean models of the loader's symlink handling are the same functions: C04's
+(`Overlay.targetOutsideRoot`/`Overlay.targetSegs` in Model/OverlayImage.lean: leading ".." count and kept
+segments of `GoPath.cleanComps`) and C17's (`targetOutsideRoot`: marker directory on a segment stack;
+`cleanAbs`). `vp` is the link's virtual path as segments, `target` the link name. The only glue left
+unproved is a fact about `String.splitOn`/`startsWith` (`GoPath.isAbs t ↔ (GoPath.comps t).head? = some ""`),
+which is why `isAbs target` appears on the C17 side instead of `handleSymlink`'s own test. -/
+theorem C17_loader_models_agree (vp : List String) (target : String) :
+    Overlay.targetOutsideRoot vp target =
+      targetOutsideRoot vp.dropLast (GoPath.isAbs target) (GoPath.comps target) ∧
+    Overlay.targetSegs vp target =
+      (if GoPath.isAbs target then cleanAbs (GoPath.comps target)
+       else cleanAbs (vp.dropLast ++ GoPath.comps target)) := by
+  have hout : ∀ xs : List String, decide ((GoPath.cleanComps false xs).1 > 0) = escapes 0 xs := by
+    intro xs
+    have hprop : (GoPath.cleanComps false xs).1 > 0 ↔ escapes 0 xs = true := by
+      show (xs.foldl (GoPath.cleanStep false) (0, [])).1 > 0 ↔ _
+      rw [foldl_cleanStep_ups]; simp
+    cases he : escapes 0 xs with
+    | true => exact decide_eq_true (hprop.2 he)
+    | false => exact decide_eq_false (fun h => by have := hprop.1 h; rw [he] at this; cases this)
+  have hseg : ∀ xs : List String, (GoPath.cleanComps true xs).2 = cleanAbs xs := by
+    intro xs
+    show ((xs.foldl (GoPath.cleanStep true) (0, [])).2).reverse = _
+    rw [foldl_cleanStep_rooted xs 0 []]; rfl
+  have hiff := C17_outside_iff vp.dropLast (GoPath.comps target)
+  constructor
+  · unfold Overlay.targetOutsideRoot
+    by_cases ha : GoPath.isAbs target = true
+    · simp only [ha, if_true, hout, hiff.2]
+    · simp only [Bool.not_eq_true] at ha
+      simp only [ha, Bool.false_eq_true, if_false, hout, hiff.1]
+  · unfold Overlay.targetSegs
+    by_cases ha : GoPath.isAbs target = true
+    · simp only [ha, if_true, hseg]
+    · simp only [Bool.not_eq_true] at ha
+      simp only [ha, Bool.false_eq_true, if_false, hseg]
 
 /-! ### non-vacuity and concrete witnesses (graphs on `Nat`) -/
 
